@@ -12,7 +12,7 @@
 //!    "out":[{"name","type","sp","def":[0|1 x 94]}..],"re":[re-encoding of the fonts read back]}
 //! (TheDrawFont keeps its glyph table private: the glyph data of the fonts read back is observed through their
 //! re-encoding, which the specification's own decoder Tdf.tla reads.)
-use crate::icy::unwrap_chunks;
+use crate::icy::{digest, unwrap_chunks};
 use crate::util::{guard, panic_site, rng, Args, Out};
 use icy_engine::{ansi, editor::EditState, get_crc32, TextPane, AttributedChar, BitFont, Buffer, BufferParser, Caret, FontGlyph, FontType, IceMode, SaveOptions, TextAttribute, TheDrawFont, FONT_NAMES, SAUCE_FONT_NAMES};
 use rand::rngs::StdRng;
@@ -138,7 +138,9 @@ fn run_font(out: &mut Out, case: &str, cls: &str, carrier: &str, f: &BitFont, ot
         }
     };
     let input = if carrier == "xbin2" && idx == 1 { font_value(other.unwrap()) } else { input };
+    let h = digest(&json!([carrier, idx, input]));
     out.ev(&json!({"ev":"font","case":case,"carrier":carrier,"cls":cls,"idx":idx,"slot":slot,"r":res.r,"site":res.site,"in":input,"bytes":res.bytes,"out":res.out}));
+    out.ev(&json!({"ev":"sum","kind":"font","case":case,"h":h,"ok":(res.r == "ok") as u8,"n":1}));
 }
 
 fn supports(carrier: &str, h: i32, n: i32) -> bool {
@@ -237,30 +239,38 @@ fn render_digest(f: &TheDrawFont) -> Value {
 
 fn run_tdf(out: &mut Out, case: &str, cls: &str, fonts: &[TdfIn], single: bool) {
     let input: Vec<Value> = fonts.iter().map(tdf_in_value).collect();
+    // one digest per font of the file: distinct fonts are what is counted
+    let hs: Vec<String> = input.iter().map(digest).collect();
+    let ok = run_tdf_inner(out, case, cls, fonts, single, input);
+    out.ev(&json!({"ev":"sum","kind":"tdf","case":case,"h":hs,"ok":ok as u8,"n":fonts.len()}));
+}
+
+fn run_tdf_inner(out: &mut Out, case: &str, cls: &str, fonts: &[TdfIn], single: bool, input: Vec<Value>) -> bool {
     let built: Vec<TheDrawFont> = fonts.iter().map(build_tdf).collect();
     let mode = if single { "single" } else { "bundle" };
     let mut ev = json!({"ev":"tdf","case":case,"cls":cls,"mode":mode,"r":"ok","site":"","in":input,"bytes":[],"out":[],"re":[],"rin":built.iter().map(render_digest).collect::<Vec<_>>(),"rout":[]});
     let saved = guard(|| if single { built[0].as_tdf_bytes() } else { TheDrawFont::create_font_bundle(&built) }.map_err(|e| e.to_string()));
     let bytes = match saved {
         Ok(Ok(b)) => b,
-        Ok(Err(e)) => { ev["r"] = json!("save-err"); ev["site"] = json!(e); out.ev(&ev); return; }
-        Err(p) => { ev["r"] = json!("save-panic"); ev["site"] = json!(panic_site(&p)); out.ev(&ev); return; }
+        Ok(Err(e)) => { ev["r"] = json!("save-err"); ev["site"] = json!(e); out.ev(&ev); return false; }
+        Err(p) => { ev["r"] = json!("save-panic"); ev["site"] = json!(panic_site(&p)); out.ev(&ev); return false; }
     };
     ev["bytes"] = json!(bytes);
     let back = match guard(|| TheDrawFont::from_tdf_bytes(&bytes).map_err(|e| e.to_string())) {
         Ok(Ok(f)) => f,
-        Ok(Err(e)) => { ev["r"] = json!("load-err"); ev["site"] = json!(e); out.ev(&ev); return; }
-        Err(p) => { ev["r"] = json!("load-panic"); ev["site"] = json!(panic_site(&p)); out.ev(&ev); return; }
+        Ok(Err(e)) => { ev["r"] = json!("load-err"); ev["site"] = json!(e); out.ev(&ev); return false; }
+        Err(p) => { ev["r"] = json!("load-panic"); ev["site"] = json!(panic_site(&p)); out.ev(&ev); return false; }
     };
     ev["out"] = Value::Array(back.iter().map(|f| json!({"name": f.name.as_bytes(), "type": tdf_type_no(f.font_type), "sp": f.spaces,
         "def": (33u8..=126).map(|c| f.has_char(c) as u8).collect::<Vec<_>>()})).collect());
     ev["rout"] = Value::Array(back.iter().map(render_digest).collect());
     match guard(|| if back.is_empty() { Ok(vec![]) } else if single && back.len() == 1 { back[0].as_tdf_bytes() } else { TheDrawFont::create_font_bundle(&back) }.map_err(|e| e.to_string())) {
-        Ok(Ok(b)) => ev["re"] = json!(b),
+        Ok(Ok(b)) => { ev["re"] = json!(b); out.ev(&ev); return true; }
         Ok(Err(e)) => { ev["r"] = json!("re-err"); ev["site"] = json!(e); }
         Err(p) => { ev["r"] = json!("re-err"); ev["site"] = json!(panic_site(&p)); }
     }
     out.ev(&ev);
+    false
 }
 
 pub fn c17(a: &Args) {
